@@ -524,7 +524,12 @@ def run(rep, tier, seed):
     # segment names k, m, n (unbound names make token boundaries scope-dependent: that is C10's subject)
     inner = {"c": [["k", {"n": "1"}], ["m", {"n": "2"}], ["n", {"n": "3"}]]}
     entry = {"c": [["k", {"c": [["k", inner], ["m", inner], ["n", {"n": "5"}]]}], ["m", inner], ["n", {"n": "3"}]]}
-    scope = [[[n, entry] for n in NAMES] + [[FN, {"feel": "function(p, q) p"}]]]
+    # b is bound to a LIST of such contexts (rows with the same entries) and the entry n of e to a list of contexts: what the
+    # scope reports to the lexer for list-valued names differs from what it reports for contexts, the trees must not
+    bound = {n: entry for n in NAMES}
+    bound["b"] = [entry, entry]
+    bound["e"] = {"c": [["k", {"c": [["k", inner], ["m", inner], ["n", {"n": "5"}]]}], ["m", [inner, inner]], ["n", [inner]]]}
+    scope = [[[n, bound[n]] for n in NAMES] + [[FN, {"feel": "function(p, q) p"}]]]
     trees = []
     for outer in FORMS:
         for inner in FORMS:
